@@ -259,6 +259,10 @@ def ghostbox_task(bname):
         for f in XYZ:
             v.prove("odd." + f, h[f] == -g[f])
             v.prove("origin." + f, z[f] == 0)
+        if bname in ("REB_BOUNDARY_OPEN", "REB_BOUNDARY_PERIODIC"):
+            # the images of the force specification sit at whole multiples of the box edges (not of the root-cell size)
+            for f, n_ in zip(XYZ, (a, b, cc)):
+                v.prove("image_shift_is_index_times_box_edge." + f, g[f] == z3.ToReal(n_) * r.boxsize[f])
     return _
 
 
